@@ -12,14 +12,27 @@ from . import paircommon as PC2
 def run(tier):
     chk = F.Check("C14", tier)
     # (a) reproducibility: same seed / config / rewards in two fresh interpreters with different hash seeds
-    cfgs = PC2.base_cfgs(tier, 3000000, A.ALGO_NAMES, 2 if tier == "quick" else 8)
+    cfgs = PC2.base_cfgs(tier, 3000000, A.ALGO_NAMES, 3 if tier == "quick" else 8, vary=True)
     half = len(cfgs) // 2
+    # twins: per algorithm two instances that differ only in the scale of the domain (or in one parameter), side by side,
+    # half of them on flat rewards -- the situation in which state shared through a class attribute changes decisions
+    tid = 3900000
+    twins = []
+    for algo in A.ALGO_NAMES:
+        for pat in ("const", "noisy"):
+            prm = {"rhomax": 0.9, "base": "HCT"} if algo in ("POO", "GPO") else ({"rhomax": 0.9} if algo in ("PCT", "VPCT") else ({"h_max": 8} if algo == "VROOM" else {}))
+            for j, (box, extra) in enumerate((([[0.0, 1.0]], {}), ([[0.0, 10.0]], {"nu": 2.0} if algo in ("T_HOO", "HCT", "VHCT", "Zooming") else {}))):
+                tid += 1
+                twins.append({"id": tid, "algo": algo, "kind": "bin", "K": 2, "D": 1, "box": box, "n": 100, "T": 100, "prm": dict(prm, **extra), "pattern": pat, "seed": 12345})
+    cfgs = cfgs + twins
+    m = (len(cfgs) + 7) // 8
+    chunks = [cfgs[k * m:(k + 1) * m] for k in range(8) if cfgs[k * m:(k + 1) * m]]     # contiguous: instances of one algorithm share an interpreter
     outs = {}
+    import concurrent.futures as cf
     for hs in (1, 4242):
         res = []
-        import concurrent.futures as cf
         with cf.ThreadPoolExecutor(8) as ex:
-            futs = [ex.submit(PC2.run_subprocess, cfgs[k::8], hs, chk.wd, "h%d_%d" % (hs, k)) for k in range(8)]
+            futs = [ex.submit(PC2.run_subprocess, chunks[k], hs, chk.wd, "h%d_%d" % (hs, k)) for k in range(len(chunks))]
             for f in futs:
                 res += f.result()
         outs[hs] = {t["id"]: t for t in res}
@@ -27,6 +40,24 @@ def run(tier):
     chk.validate("Trace_Pair.tla", "Trace_Pair.cfg", pairs, "repro", own=["pair."], nontrivial=lambda p: len(p["a"]) > 40)
     # every one of these sessions also goes through Trace_Session (domain object untouched)
     chk.validate("Trace_Session.tla", "Trace_Session.cfg", list(outs[1].values()), "dom", own=["end.domain-mutated"], nontrivial=lambda t: True)
+    # (a') no state leaks from one instance to the next through class / module attributes: the same sessions
+    # executed in the reverse order in a third fresh interpreter must give the same traces
+    rev = {}
+    with cf.ThreadPoolExecutor(8) as ex:
+        futs = [ex.submit(PC2.run_subprocess, list(reversed(chunks[k])), 7, chk.wd, "rev_%d" % k) for k in range(len(chunks))]
+        for fu in futs:
+            for t in fu.result():
+                rev[t["id"]] = t
+    pairs = [PC2.pair(20000 + i, outs[1][cid], rev[cid], info={"what": "order-independence"}) for i, cid in enumerate(outs[1])]
+    chk.validate("Trace_Pair.tla", "Trace_Pair.cfg", pairs, "order", own=["pair."], nontrivial=lambda p: len(p["a"]) > 40)
+    # (a'') the user's domain object: every partition class on boxes whose sides differ, D = 2 and 3
+    dj = []
+    rnd0 = random.Random(C.seed() + 5)
+    for j, (kind, Kk) in enumerate(A.PART_KINDS):
+        for D, box in ((2, [[-2.0, 3.0], [5.0, 5.5]]), (3, [[0.0, 1.0], [-4.0, 0.0], [10.0, 12.0]])):
+            algo = rnd0.choice(["T_HOO", "HCT", "SOO", "DOO", "SequOOL", "Zooming", "StoSOO", "PCT", "POO"])
+            dj.append({"id": 3050000 + 10 * j + D, "algo": algo, "kind": kind, "K": Kk, "D": D, "box": box, "n": 100, "T": 40, "prm": {}, "pattern": "noisy", "seed": rnd0.randrange(1 << 30)})
+    chk.validate("Trace_Session.tla", "Trace_Session.cfg", S.pmap(S.run_session, dj), "dom2", own=["end.domain-mutated"], nontrivial=lambda t: True)
     # (b) isolation: TLC-enumerated interleavings of two sessions
     scheds = PC2.schedules(chk, "two", 2, 0)
     rnd = random.Random(C.seed() + 17)
@@ -35,7 +66,7 @@ def run(tier):
     long = PC2.schedules(chk, "two", 30, 0, simulate="num=%d" % (12 if tier == "quick" else 60), label="two_long") if True else []
     rnd.shuffle(scheds)
     iso_algos = [a for a in A.ALGO_NAMES if a != "VROOM"]
-    base = PC2.base_cfgs(tier, 3100000, iso_algos, 3 if tier == "quick" else 12, rng_free=True, seedoff=1, n_choices=(40, 64))
+    base = PC2.base_cfgs(tier, 3100000, iso_algos, 3 if tier == "quick" else 12, rng_free=True, seedoff=1, n_choices=(40, 64), vary=True)
     jobs = []
     for k, sc in enumerate(scheds[: (40 if tier == "quick" else 400)] + long):
         ca, cb = rnd.choice(base), rnd.choice(base)
